@@ -372,7 +372,10 @@ def pcmXferOk (s : St) (ord : Nat) : St × Res Unit :=
   | some (o, tok) =>
     match popUsed s.tx tok with
     | .error e => (s, .err (.q e))
-    | .ok (q', _) => ({ s with tx := q', nb := s.nb.filter (·.1 != o) }, .ok ())
+    | .ok (q', u) =>
+      -- (fix 097f5f5) the status word the device wrote is checked, as in the blocking `pcm_xfer`
+      ({ s with tx := q', nb := s.nb.filter (·.1 != o) },
+       if effStatus u.written = S_OK then .ok () else .err .ioError)
 
 /-! ### line protocol -/
 
